@@ -171,6 +171,8 @@ type crashPlan struct {
 	inc  int // which incarnation of the target within the scenario (1-based); 0 = none
 	at   int // the at-th write of that incarnation
 	side string
+	// or a reject window: the store rejects the CAS calls rejFrom .. rejFrom+rejLen-1 of that incarnation
+	rejFrom, rejLen int
 }
 
 type scenario struct {
@@ -195,8 +197,12 @@ func (s *scRun) startTarget() {
 	}
 	s.incs++
 	at, side := 0, ""
+	if prev := s.w.inc[1]; prev != nil && prev.rec.reject {
+		s.w.setKV(1, true) // a window still open when the process ended closes before the next life
+	}
 	if s.plan.inc == s.incs {
 		at, side = s.plan.at, s.plan.side
+		s.w.rejNext = [2]int{s.plan.rejFrom, s.plan.rejLen}
 	}
 	if err := s.w.start(1, s.tgt, s.seed+int64(s.incs), at, side); err != nil {
 		s.w.fatal = err.Error()
@@ -241,7 +247,11 @@ func scenarios() []scenario {
 	}
 	leave := func(s *scRun) {
 		join(s)
-		s.do(func() { s.w.stop(1) })
+		s.do(func() {
+			if s.w.alive(1) && !s.w.stopping(1) { // (it may have failed on its own when the store rejected its join)
+				s.w.stop(1)
+			}
+		})
 		s.do(func() { s.w.sleep(1) })
 	}
 	return []scenario{
@@ -265,9 +275,28 @@ func scenarios() []scenario {
 			s.do(func() { s.w.sleep(1) })
 			s.do(func() { s.w.stop(2) }) // 2 stays in the ring as LEAVING with its tokens
 			s.startTarget()
-			s.do(func() { s.w.request(1, "cs", "JOINING") })
-			s.do(func() { s.w.request(1, "claim", "2") })
-			s.do(func() { s.w.request(1, "cs", "ACTIVE") })
+			s.do(func() {
+				if s.w.running(1) {
+					s.w.request(1, "cs", "JOINING")
+				}
+			})
+			s.do(func() {
+				if s.w.running(1) {
+					s.w.request(1, "claim", "2")
+				}
+			})
+			s.do(func() {
+				if !s.w.running(1) {
+					return
+				}
+				// the transfer worked: go ACTIVE with the claimed tokens; otherwise (the store rejected the
+				// claim) fall back to PENDING and let the auto-join pick tokens
+				if d := s.w.storeRing(); d != nil && len(d.Ingesters[instID(1)].Tokens) == s.w.numTokens {
+					s.w.request(1, "cs", "ACTIVE")
+				} else {
+					s.w.request(1, "cs", "PENDING")
+				}
+			})
 			s.do(func() { s.w.sleep(2) })
 		}},
 		{"basic-register", ba(0, true, true, "ACTIVE"), join},
@@ -287,7 +316,16 @@ func runScenario(w *world, sc scenario, plan crashPlan, seed int64) (writes []in
 	s := &scRun{w: w, plan: plan, tgt: sc.tgt, seed: seed}
 	sc.run(s)
 	for _, r := range s.recs {
-		writes = append(writes, r.writes)
+		if plan.rejLen < 0 { // dry run for window enumeration: count CAS calls instead of writes
+			writes = append(writes, r.calls)
+		} else {
+			writes = append(writes, r.writes)
+		}
+	}
+	for i := 1; i <= w.n && w.fatal == ""; i++ {
+		if w.alive(i) && w.inc[i].rec.reject {
+			w.setKV(i, true) // every window closes before the recovery time starts
+		}
 	}
 	if s.dead && w.fatal == "" {
 		if err := w.start(1, sc.tgt, seed+50, 0, ""); err != nil {
@@ -303,6 +341,9 @@ func runScenario(w *world, sc scenario, plan crashPlan, seed int64) (writes []in
 func (p crashPlan) String() string {
 	if p.inc == 0 {
 		return "dry"
+	}
+	if p.rejFrom > 0 {
+		return fmt.Sprintf("inc%d-reject-calls%d+%d", p.inc, p.rejFrom, p.rejLen)
 	}
 	return fmt.Sprintf("inc%d-w%d-%s", p.inc, p.at, p.side)
 }
